@@ -93,6 +93,11 @@ class Parents:
         self.amod = self.griffe.visit("am", filepath=Path("am.py"), code=ALIAS_SOURCE)
         # a hand-built, detached object: a function named __init__ that has no parent at all
         g = self.griffe
+        # a function of a NAMESPACE package (filepath is a list) no portion of which lies below the current directory:
+        # relative_filepath raises ValueError, which every parser warning has to survive
+        nspkg = g.Module("nsp", filepath=[Path("/nonexistent-gverif/nsp")])
+        self.nsfunc = g.Function("f", parameters=g.Parameters(g.Parameter("a", annotation="int", default="1")), returns="int")
+        nspkg.set_member("f", self.nsfunc)
         self.detached = g.Function("__init__", parameters=g.Parameters(g.Parameter("self"), g.Parameter("a", annotation="int", default="1")), returns="None")
         self.baseline = self.project()
 
@@ -103,6 +108,8 @@ class Parents:
             return self.amod
         if kind == "detachedinit":
             return self.detached
+        if kind == "nsfunc":
+            return self.nsfunc
         path = self.paths[kind]
         return self.mod if path is None else self.mod[path]
 
@@ -127,6 +134,8 @@ class Parents:
         walk(self.mod)
         walk(self.amod)
         out.append(tuple((n, m.target_path, m._target is None) for n, m in self.amod.members.items() if m.is_alias))
+        n = self.nsfunc
+        out.append((n.path, [str(x) for x in n.parent.filepath], tuple(n.parent.members), tuple((q.name, str(q.annotation), str(q.default)) for q in n.parameters), n.docstring is None))
         d = self.detached
         out.append((d.name, d.parent is None, tuple((q.name, str(q.annotation), str(q.default)) for q in d.parameters), str(d.returns), tuple(d.members), d.docstring is None))
         return tuple(out)
